@@ -9,6 +9,9 @@ forged sessions), spec/Tickets_Trace.tla (validation of what the real API did). 
     and checks the model invariants; histories ending in an observation are replayed on the real
     Config.EncryptTicket/DecryptTicket/SetSessionTicketKeys/TicketKeyFromBytes, the recorded results (did a state come
     back, its SessionState.Bytes()) are judged by TLC.
+ 1b. values kept by the caller (spec/Tickets_Hold.cfg): all histories over {Encrypt, Decrypt, Recheck, Reread} with states of equal and of
+    different sizes - the state object a DecryptTicket returned and the slice an EncryptTicket returned are re-examined after later calls
+    (Tickets!Recheck / Reread: they must still be what they were).
  2. random long histories (TLC -simulate) over more keys / states; exhaustive single-bit and prefix sweeps of real tickets.
  3. the TLC-enumerated grid of forged ClientSessionStates (TLS 1.0-1.2 master secrets, TLS 1.3 PSKs of every 1.3 suite, secret via
     constructor or SetMasterSecret) is handshaken against the in-tree server with known keys; MasterSecret() accessor round trip
